@@ -4,6 +4,7 @@
      LoadFrame     a new frame: (possibly different) box, new coordinates/velocities/forces
      ShiftParent   one atom is displaced by an integer combination of the box vectors
      TranslateAll  rigid translation of all atoms
+     ChangeMass    the mass of an atom is changed after the map was created
    Every step appends to the history h the complete input of the Apply call and the
    expected observation (per CG bead, for both molecules of the topology, and the CG
    box), so that the history can be replayed into the real TopologyMap.
@@ -21,9 +22,10 @@ CONSTANTS MapDefs,      \* set of mapping definitions
           Bases,        \* set of positions of atom 1
           KSet, TSet,   \* image shifts, translations
           Depth, Emit, Theorems
-VARIABLES md, fl, box, pos, vel, frc, h
-vars == <<md, fl, box, pos, vel, frc, h>>
+VARIABLES md, fl, box, pos, vel, frc, mass, h
+vars == <<md, fl, box, pos, vel, frc, mass, h>>
 
+NewMass == 9
 T2 == <<3, -2, 5>>
 K2 == << <<0, 0, 0>>, <<1, 0, -1>>, <<-2, 1, 0>>, <<0, -1, 3>> >>
 Pos2(B, P) == [i \in 1..Len(P) |-> Image(B, VAdd(P[i], T2), K2[i])]
@@ -34,10 +36,13 @@ Cut(s, n) == [i \in 1..n |-> s[i]]
 OutJson(o) == [err |-> o.err, W |-> o.W, hasPos |-> o.hasPos, cands |-> o.cands,
                hasVel |-> o.hasVel, velnum |-> o.velnum,
                hasF |-> o.hasF, fnum |-> o.fnum, fden |-> o.fden, mass |-> o.mass, ell |-> o.ell]
-Rec(op, arg, B, P, Vv, Ff, ff) ==
-  LET o1 == MolOut(B, md, P, Vv, Ff, ff)
-      o2 == MolOut(B, md, Pos2(B, P), Vv, Ff, ff)
-  IN [op |-> op, arg |-> arg, fl |-> ff, box |-> <<B.a, B.b, B.c>>, typ |-> AutoType(B),
+\* mm = the CURRENT masses of the atoms (the same in both molecules): the mass of a CG bead is the
+\* sum of the current parent masses, also when a mass was changed after the map was created
+Rec(op, arg, B, P, Vv, Ff, ff, mm) ==
+  LET mdm == [md EXCEPT !.mass = mm]
+      o1 == MolOut(B, mdm, P, Vv, Ff, ff)
+      o2 == MolOut(B, mdm, Pos2(B, P), Vv, Ff, ff)
+  IN [op |-> op, arg |-> arg, fl |-> ff, mass |-> mm, box |-> <<B.a, B.b, B.c>>, typ |-> AutoType(B),
       pos |-> P, pos2 |-> Pos2(B, P), vel |-> Vv, frc |-> Ff,
       err |-> FrameErr(o1 \o o2),
       out |-> [b \in 1..Len(o1) |-> OutJson(o1[b])],
@@ -47,6 +52,8 @@ Rec(op, arg, B, P, Vv, Ff, ff) ==
 \* trajectory may have velocities or forces in some frames only
 Init == /\ md \in MapDefs
         /\ fl = [hp |-> TRUE, hv |-> "none", hf |-> "none"]
+        \* a mass may already have been changed between CreateCGTopology and the first Apply
+        /\ mass \in {md.mass, [md.mass EXCEPT ![1] = NewMass]}
         /\ box = ZeroBox /\ pos = <<>> /\ vel = <<>> /\ frc = <<>>
         /\ h = <<>>
 
@@ -56,27 +63,35 @@ LoadFrame == \E B \in Boxes, c \in Confs, base \in Bases, ff \in FlagSet :
                /\ pos' = PosOf(c, base, md.n)
                /\ vel' = Cut(c.vel, md.n)
                /\ frc' = Cut(c.frc, md.n)
-               /\ h' = Append(h, Rec("load", 0, B, pos', vel', frc', ff))
+               /\ h' = Append(h, Rec("load", 0, B, pos', vel', frc', ff, mass))
+               /\ UNCHANGED mass
 ShiftParent == /\ h # <<>> /\ ~IsZeroBox(box)
                /\ \E i \in 1..md.n, k \in KSet :
                     /\ pos' = [pos EXCEPT ![i] = Image(box, @, k)]
-                    /\ h' = Append(h, Rec("shift", i, box, pos', vel, frc, fl))
-               /\ UNCHANGED <<box, vel, frc, fl>>
+                    /\ h' = Append(h, Rec("shift", i, box, pos', vel, frc, fl, mass))
+               /\ UNCHANGED <<box, vel, frc, fl, mass>>
 TranslateAll == /\ h # <<>>
                 /\ \E t \in TSet :
                      /\ pos' = [i \in 1..md.n |-> VAdd(pos[i], t)]
-                     /\ h' = Append(h, Rec("trans", 0, box, pos', vel, frc, fl))
-                /\ UNCHANGED <<box, vel, frc, fl>>
+                     /\ h' = Append(h, Rec("trans", 0, box, pos', vel, frc, fl, mass))
+                /\ UNCHANGED <<box, vel, frc, fl, mass>>
+\* the mass of one atom (in every molecule) is changed through the public API (Bead::setMass)
+\* between two Apply calls; everything else stays
+ChangeMass == /\ h # <<>>
+              /\ \E i \in 1..md.n :
+                   /\ mass' = [mass EXCEPT ![i] = IF @ = NewMass THEN NewMass + 4 ELSE NewMass]
+                   /\ h' = Append(h, Rec("mass", i, box, pos, vel, frc, fl, mass'))
+              /\ UNCHANGED <<box, pos, vel, frc, fl>>
 MdInitError == \E b \in 1..Len(md.beads) : InitError(md.beads[b])
 Next == /\ Len(h) < Depth
         /\ ~MdInitError           \* such a mapping is refused when the map is created
-        /\ (LoadFrame \/ ShiftParent \/ TranslateAll)
+        /\ (LoadFrame \/ ShiftParent \/ TranslateAll \/ ChangeMass)
         /\ UNCHANGED md
 Spec == Init /\ [][Next]_vars
 
 \* ---- properties ------------------------------------------------------------------------
 Fr == h # <<>>
-CurOut == MolOut(box, md, pos, vel, frc, fl)
+CurOut == MolOut(box, [md EXCEPT !.mass = mass], pos, vel, frc, fl)
 NB == Len(md.beads)
 \* the certified image window of Pbc!SpecMI (see Pbc.tla)
 InvCert == LET Cur == TLCEval(CurOut) IN Fr => \A b \in 1..NB : Cur[b].cert
